@@ -773,6 +773,12 @@ def c13x(kind, text, loader_name):
     import yaml
     L = getattr(yaml, loader_name, None)
     if L is None: return dict(bad=[], outcome='no_class')
+    if kind == 'unhashable':
+        try: obj = yaml.load(text, Loader=L)
+        except yaml.constructor.ConstructorError: return dict(bad=[], outcome='rejected')
+        except Exception as e:
+            return dict(bad=[dict(kind='non_yaml_exception' if not isinstance(e, yaml.YAMLError) else 'anchor_rule', what='%s: a container in key / set-member position must be rejected with a ConstructorError, got %s: %s' % (loader_name, type(e).__name__, str(e)[:60].replace('\n', ' ')), loader=loader_name, exc=type(e).__name__)], outcome='crash')
+        return dict(bad=[dict(kind='anchor_rule', what='%s: a container in key / set-member position was accepted: %r' % (loader_name, repr(obj)[:80]), loader=loader_name)], outcome='accepted')
     try: obj = yaml.load(text, Loader=L)
     except yaml.YAMLError as e:
         return dict(bad=[dict(kind='anchor_rule', what='%s: a valid document with %s is rejected (%s: %s)' % (loader_name, kind, type(e).__name__, str(e)[:80].replace('\n', ' ')), loader=loader_name, exc=type(e).__name__)], outcome='rejected')
@@ -1636,6 +1642,20 @@ def c17special(name, be):
     from tools import c17classes as K
     if name == 'limitlist':
         o = K.LimitList(); o.extend([1, 2, 3, 4]); o.limit = 2
+    elif name in ('copyreg_handle', 'copyreg_shared', 're_pattern', 're_pattern_bytes'):
+        # objects reduced through copyreg.dispatch_table: pickle consults it before __reduce_ex__
+        import re as _re
+        o = K.dispatch_table_objects()[name]
+        show = lambda x: K.canon(x) if not name.startswith('re_') else repr([(p.pattern, p.flags) for p in (x if isinstance(x, list) else [x])])
+        D = yaml.Dumper if be == 'py' else yaml.CDumper; UL = yaml.UnsafeLoader if be == 'py' else yaml.CUnsafeLoader
+        want = show(pickle.loads(pickle.dumps(o, 2)))
+        try: text = yaml.dump(o, Dumper=D)
+        except Exception as e: return dict(bad=[dict(kind='dump_raises', what='yaml.dump of a picklable object (reduced through copyreg.dispatch_table) raised %s: %s' % (type(e).__name__, str(e)[:80]), exc=type(e).__name__, backend=be, special=name)], outcome='dump_raises')
+        try: got = show(yaml.load(text, Loader=UL))
+        except Exception as e: return dict(bad=[dict(kind='load_raises', what='unsafe_load raised %s: %s' % (type(e).__name__, str(e)[:80]), exc=type(e).__name__, text=text[:600], backend=be, special=name)], outcome='load_raises')
+        bad = []
+        if got != want: bad.append(dict(kind='rebuild_differs', what='YAML rebuilds %r where pickle protocol 2 rebuilds %r' % (got[:160], want[:160]), text=text[:600], backend=be, special=name))
+        return dict(bad=bad, outcome='ok' if not bad else 'differs')
     else: o = K.GetSetFalsy()
     D = yaml.Dumper if be == 'py' else yaml.CDumper; UL = yaml.UnsafeLoader if be == 'py' else yaml.CUnsafeLoader
     want = K.canon(pickle.loads(pickle.dumps(o, 2))); text = yaml.dump(o, Dumper=D)
